@@ -13,7 +13,10 @@ import (
 	"time"
 )
 
-var watchdog = 3 * time.Second
+// watchdog bounds every guarded call.  It is generous on purpose: the checks run many shards
+// in parallel, possibly on a loaded machine, and a timeout is reported as non-termination.
+// The non-terminating behaviours this project found so far spin forever, so 20 s loses nothing.
+var watchdog = 20 * time.Second
 
 type familyFn func(g *Gen, tier string, shard, nshards int)
 
@@ -28,6 +31,9 @@ func main() {
 	if !ok {
 		os.Stderr.WriteString("unknown family " + os.Args[1] + "\n")
 		os.Exit(2)
+	}
+	if ms, err := strconv.Atoi(os.Getenv("VERIF_WATCHDOG_MS")); err == nil && ms > 0 {
+		watchdog = time.Duration(ms) * time.Millisecond
 	}
 	seed, _ := strconv.ParseInt(os.Args[2], 10, 64)
 	tier := os.Args[3]
